@@ -82,6 +82,8 @@ Event(e) ==
     [] e.e = "gjoin.call" -> GJoinCall(e.p, e.a, e.tok)
     [] e.e = "gleave.call" -> GLeaveCall(e.p, e.tok)
     [] e.e \in {"gjoin.ret", "gleave.ret"} -> GMemberRet(e.p)
+    [] e.e = "glen.call" -> GLenCall(e.p)
+    [] e.e = "glen.ret" -> GLenRet(e.p, e.len)
     [] e.e = "sup.event" -> SupHandle(e.p, [k |-> e.k, a |-> e.a])
     [] e.e = "sup.done" -> SupHandleEnd(e.p)
     [] e.e = "exit" -> ExitObs(e.a, e.res)
